@@ -118,8 +118,8 @@ def impl_unit_of(qobj):
 
 
 # numeric argument types: the same number handed to the library as different Python objects
-NUM_TYPES = ["int", "float", "np.float64", "np.float32", "np.int64", "np.int32", "np.arange",
-             "Fraction"]
+NUM_TYPES = ["int", "float", "np.float64", "np.float32", "np.float16", "np.longdouble", "np.int64",
+             "np.int32", "np.arange", "Fraction"]
 
 
 def num_obj(k, typ=None):
@@ -140,6 +140,10 @@ def num_obj(k, typ=None):
         return np.float64(k.numerator / k.denominator)
     if typ == "np.float32":
         return np.float32(k.numerator / k.denominator)
+    if typ == "np.float16":
+        return np.float16(k.numerator / k.denominator)
+    if typ == "np.longdouble":
+        return np.longdouble(k.numerator / k.denominator)
     assert k.denominator == 1
     if typ == "np.int64":
         return np.int64(int(k))
@@ -155,9 +159,9 @@ def num_types_for(k):
     k = F(k)
     if k.denominator == 1:
         return list(NUM_TYPES)
-    ts = ["float", "np.float64", "Fraction"]
+    ts = ["float", "np.float64", "Fraction", "np.longdouble"]
     if k.denominator & (k.denominator - 1) == 0:
-        ts.append("np.float32")     # dyadic: exact in binary32
+        ts += ["np.float32", "np.float16"]     # dyadic: exact in binary32 / binary16
     return ts
 
 
@@ -342,9 +346,13 @@ def build_tree(q, tree, leaves):
 
 
 def strip_tree(tree):
-    """driver form of a tree (leaf strings, argument types and fault wrappers removed)"""
+    """driver form of a tree (argument types and fault wrappers removed)"""
     tree = unwrap(tree)
     if tree[0] == "leaf":
+        # a leaf that was created with a unit STRING goes to the model as that string (the model
+        # parses it with its own parser, as the constructor does: `WTree.leafS`)
+        if len(tree) > 2 and isinstance(tree[2], str) and tree[2]:
+            return ["leafw", tree[2]]
         return ["leaf", tree[1]]
     if tree[0] == "const":
         return ["const"]
@@ -562,6 +570,12 @@ def float_ok(tree, defs):
         b = _simulate(tree, defs, False)
     except (ZeroDivisionError, RecursionError):
         return False
+    except TypeError:
+        # Python itself refuses the exponent arithmetic: `Fraction * numpy.longdouble` is a
+        # TypeError of the two number types (a Fraction power below a longdouble power, either
+        # order); the library reports it as an undefined operation.  A loud refusal that stems
+        # from the numeric tower, no unit is derived: such a mix of types is not judged
+        return False
     if len(a) != len(b):
         return False
     for (ua, wa), (ub, wb) in zip(a, b):
@@ -570,6 +584,18 @@ def float_ok(tree, defs):
         if any(abs(float(ua[k]) - float(ub[k])) > 1e-9 for k in ua):
             return False
     return True
+
+
+def refused_by_python(tree, defs):
+    """does the exponent arithmetic of the formula mix number types that Python itself refuses
+    to multiply (Fraction with numpy.longdouble)?  (see float_ok; counted in the distribution)"""
+    try:
+        _simulate(tree, defs, False)
+    except TypeError:
+        return True
+    except (ZeroDivisionError, RecursionError):
+        return False
+    return False
 
 
 # ----------------------------------------------------------------------------- tree generator
@@ -1031,7 +1057,10 @@ def run_history(q, hist):
     Steps: ["define", name, string, units_json]   a definition that must be accepted
            ["define-bad", name, string]          a definition that must be REJECTED (caught)
            ["clear"]                             clear_unit_definitions()
+           ["style", frac]                       set_unit_style(FRACTION if frac else EXPONENTS)
            ["eval", tree]                        build the formula, read the unit of the result
+           ["eval", tree, {"nojudge": true}]     ... evaluated as part of the past, not judged
+                                                 (e.g. under definitions, outside C08's domain)
     Returns a list of (tree, defs_h snapshot, request history so far, observation, step index);
     defs_h holds the harness's own record of the accepted definitions only."""
     reset(q)
@@ -1059,6 +1088,8 @@ def run_history(q, hist):
             defs_h = collections.OrderedDict()
             reqs.append(["clear"])
             tainted = False
+        elif st[0] == "style":
+            q.set_unit_style(q.UnitStyle.FRACTION if st[1] else q.UnitStyle.EXPONENTS)
         else:
             o = observe_tree(q, st[1], clear=False)
             o["faults"] = list(log) + o.get("faults", [])
@@ -1100,9 +1131,16 @@ def describe_prefix(prefix):
             out.append("{}={}".format(st[1], st[2]))
         elif st[0] == "define-bad":
             out.append("rejected define_unit({!r}, {!r})".format(st[1], st[2]))
+        elif st[0] == "style":
+            out.append("unit style " + ("FRACTION" if st[1] else "EXPONENTS"))
         else:
             out.append("clear")
     return ", ".join(out)
+
+
+def _written_classes(s):
+    from props._uwrite import written_form
+    return written_form(s)
 
 
 def run_cases(ctx, pid, cases, ref=False, use_model=True):
@@ -1125,6 +1163,14 @@ def run_cases(ctx, pid, cases, ref=False, use_model=True):
             if st[0] == "define-bad":
                 dist["history:rejected-define:" + (st[3] if len(st) > 3 else "other")] += 1
     for (ci, t, dh, rq, o, si), m in zip(evals, replies):
+        for x in subtrees(t):
+            if x[0] == "leaf" and len(x) > 2 and isinstance(x[2], str):
+                for c in _written_classes(x[2]):
+                    dist["leaf-string:" + c] += 1
+        step = cases[ci][si]
+        if len(step) > 2 and step[2].get("nojudge"):
+            dist["evaluations in the past of a history (not judged)"] += 1
+            continue
         for k, v in tree_ops(t).items():
             dist[(k if k.split(":")[0] in ("fault", "powtype", "consttype", "leafmode", "leafvt",
                                             "leafet", "recalculate") else "op:" + k)] += v
@@ -1145,8 +1191,8 @@ def run_cases(ctx, pid, cases, ref=False, use_model=True):
                 # to the session or the history is ABOUT them (["eval", tree, {"keep": true}])
                 prefix = [st for st in cases[ci][:si] if st[0] != "eval" or session_fault(st[1])
                           or (len(st) > 2 and st[2].get("keep"))]
-                if any(st[0] == "eval" for st in prefix):
-                    f["carries_history"] = True
+                if prefix:
+                    f["carries_history"] = True     # define / clear / style / earlier evaluations
                 sh = shrink_tree(q, pid, prefix, t, dh)
                 if sh:
                     # report the smallest calculated quantity that still fails, with its own
